@@ -302,15 +302,14 @@ Definition tokens_san (line : str) : option (list str) :=
 (* :456-473  one input line of the game; None = contributes nothing *)
 Definition clean_pgn_line (l0 : str) : option str :=
   let l := trim_space l0 in                           (* :457 *)
-  match l with
-  | 37 :: _ => None                                   (* :458 HasPrefix percent sign *)
-  | _ =>
+  if match l with c :: _ => c =? 37 | [] => false end (* :458 HasPrefix percent sign *)
+  then None
+  else
     let l := ra m_tag [] 0 l in                       (* :462 *)
     let l := strip_result l in                        (* :463 *)
     let l := strip_semi l in                          (* :464 *)
     let l := trim_space l in                          (* :465 *)
-    match l with [] => None | _ => Some l end         (* :467 *)
-  end.
+    match l with [] => None | _ => Some l end.        (* :467 *)
 
 Definition pgn_move_line (gs : list str) : str :=     (* :471-472  one space + l *)
   concat (map (fun l => match clean_pgn_line l with Some x => 32 :: x | None => [] end) gs).
@@ -353,8 +352,14 @@ Definition file_games (f : format) (lines : list str) : list (option (list str))
   | Pgn => map tokens_pgn (pgn_slices [] lines)
   end.
 
-(* processSingleMove (openingbook.go:553-578): a token containing [a-h][1-8][a-h][1-8] anywhere
-   is handed to GetMoveFromUci, every other token to GetMoveFromSan (if regexSanMove matches) *)
+(* processSingleMove (openingbook.go:553-578): a token containing [a-h][1-8][a-h][1-8] ANYWHERE
+   (the pattern of openingbook.go:553 is not anchored) is handed to GetMoveFromUci, every other
+   token to GetMoveFromSan (if the equally unanchored regexSanMove matches).  The movegen parsers
+   themselves match the WHOLE string (movegen.go:462,497 are anchored): a token with anything
+   glued to the move is unreadable and ends the line; a fully disambiguated SAN move such as
+   Ng1f3 or Qh4e1 contains a coordinate pair, is routed to the UCI parser and is unreadable too.
+   All of this is inside the parameter [resolve] of Part A; [uci_pattern_in] only documents the
+   routing. *)
 Fixpoint uci_pattern_in (s : str) : bool :=
   match s with
   | a :: t => match t with
